@@ -125,6 +125,7 @@ def run(ctx):
     link.check(ctx, "layouts", {"clip": "src_clip_eq", "rdist": "src_rdist_eq"},
                {"_optimize_layout_euclidean_single_epoch": "mutates array views (current = head_embedding[j]); outside the py2coq subset: tied by the per-epoch correspondence"})
     link.check(ctx, "utils", {"tau_rand_int": "src_tau_rand_int_eq", "norm": "src_norm_eq"})
+    link.check(ctx, "umap_sup", {"make_epochs_per_sample": "src_make_epochs_per_sample_eq"})
     rng = ctx.rng
     npr = np.random.RandomState(rng.randrange(2 ** 31))
     hdr = ("From Coq Require Import List ZArith PrimFloat. From UV Require Import Num FNum M_sgd V_sgd.\n"
